@@ -49,16 +49,16 @@ theorem C15_system_listener_lookup (fuel n : Nat) (d : TrkData α (SysSnd α) (S
   · intro p hp; unfold Trk.trackInfo; rw [hp]; rfl
   · intro hp; unfold Trk.trackInfo; rw [hp]
 
-theorem SysEnv.step_listener_ids (fuel : Nat) (e : SysEnv α) (dt : α) :
-    (e.step fuel dt).listeners.map (·.id) = e.listeners.map (·.id) := by
+theorem SysEnv.step_listener_ids (e : SysEnv α) (dt : α) :
+    (e.step dt).listeners.map (·.id) = e.listeners.map (·.id) := by
   unfold SysEnv.step
   dsimp only
   split
   · simp [List.map_map, Function.comp_def, ListenerSt.updateWith]
   · rfl
 
-theorem SysEnv.steps_listener_ids (fuel : Nat) (dts : List α) (e : SysEnv α) :
-    (dts.foldl (SysEnv.step fuel) e).listeners.map (·.id) = e.listeners.map (·.id) := by
+theorem SysEnv.steps_listener_ids (dts : List α) (e : SysEnv α) :
+    (dts.foldl SysEnv.step e).listeners.map (·.id) = e.listeners.map (·.id) := by
   induction dts generalizing e with
   | nil => rfl
   | cons dt rest ih => rw [List.foldl_cons, ih, SysEnv.step_listener_ids]
@@ -74,11 +74,11 @@ theorem SysEnv.listenerInfo_none_of_ids (ls : List (ListenerSt α)) (id : Nat) (
     whole-system model: if every listener with this id in the arena has had its handle dropped and none with this
     id waits in the new-resource ring, then after `Renderer::on_start_processing` and through ANY number of
     internal chunks of the callback (`process_chunk` steps modulators, clocks, listeners) the lookup of this id
-    in the `Info` the mixer's tracks see fails.  (Every number type, any fuel, clocks hanging or not.) -/
-theorem C15_system_dropped_listener_absent (fuel : Nat) (e : SysEnv α) (id : Nat)
+    in the `Info` the mixer's tracks see fails.  (Every number type; clocks cannot hang any more.) -/
+theorem C15_system_dropped_listener_absent (e : SysEnv α) (id : Nat)
     (hact : ∀ l ∈ e.listeners, l.id = id → l.removed = true) (hpend : ∀ l ∈ e.newListeners, l.id ≠ id)
     (dts : List α) :
-    (dts.foldl (SysEnv.step fuel) e.start).mixInfo.listener id = none := by
+    (dts.foldl SysEnv.step e.start).mixInfo.listener id = none := by
   show SysEnv.listenerInfo _ id = none
   apply SysEnv.listenerInfo_none_of_ids
   rw [SysEnv.steps_listener_ids]
@@ -308,7 +308,7 @@ theorem C15_system_reachable_dropped_listener_silent {n : Nat} (s : System ℝ n
   refine ⟨hclean.subs, ?_⟩
   intro d children pending p hmem hsp hact hpend m hm sends
   have ht : Trk.Clean s.r.ibs (.node d children pending) := (Trk.cleanList_iff _ _).mp hclean.subs _ hmem
-  have habs := C15_system_dropped_listener_absent s.fuel s.r.env p.sd.listenerId hact hpend [s.r.dt * (KOps.ofNat m : ℝ)]
+  have habs := C15_system_dropped_listener_absent s.r.env p.sd.listenerId hact hpend [s.r.dt * (KOps.ofNat m : ℝ)]
   exact (C15_system_no_listener_silent s.fuel s.r.ibs d children pending p hsp ht s.r.dt _ habs m hm sends).1
 
 /-! ### non-vacuity -/
